@@ -143,7 +143,7 @@ func r02_1(c *Ctx, rule string) {
 	if csCall == nil {
 		c.R.Fail(rule, "fsutil.sameFile/compareStat-call", c.P.Pos(same.Pos()), "sameFile no longer calls compareStat")
 	} else {
-		csKey = csCall.Name() + "#0"
+		csKey = c.reg(csCall) + "#0"
 		// arguments: stat of first param, stat of second param
 		a0, a1 := rootParam(csCall.Call.Args[0]), rootParam(csCall.Call.Args[1])
 		c.R.Check(a0 != nil && a1 != nil && a0 != a1 && isFieldLoad(csCall.Call.Args[0], "fsutil.currentPath.stat") && isFieldLoad(csCall.Call.Args[1], "fsutil.currentPath.stat"),
@@ -309,8 +309,8 @@ func r02_3(c *Ctx, rule string) {
 		return
 	}
 	base := c.name(loop)
-	sameKey := sf.Name() + "#0"
-	errKey := "(" + sf.Name() + "#1==nil)"
+	sameKey := c.reg(sf) + "#0"
+	errKey := "(" + c.reg(sf) + "#1==nil)"
 	isChange := func(in ssa.Instruction) bool { return c.P.IsCallTo(in, "freevar:changeFn") }
 	isNext := func(in ssa.Instruction) bool { return c.P.IsCallTo(in, "fsutil.pathChange") }
 	run := func(same bool) (*eng.Hit, bool) {
@@ -391,6 +391,14 @@ func (c *Ctx) DerivesFromLocal(v ssa.Value, pred func(ssa.Value) bool, depth int
 		seen[v] = true
 		if pred(v) {
 			return true
+		}
+		if rs := eng.ResolveAll(v); len(rs) != 1 || rs[0] != v {
+			for _, r := range rs {
+				if rec(r, d+1) {
+					return true
+				}
+			}
+			return false
 		}
 		if al, ok := v.(*ssa.Alloc); ok {
 			// composite literal: what is stored into its fields / elements
